@@ -195,6 +195,29 @@ def apalache_inductive(module, init="Init", ind_init="IndInit", inv="IndInv", ti
     return res
 
 
+def tlapm_prove(module, timeout=900):
+    """Machine-check the proofs of spec/<module>.tla with the TLA+ proof system, in a scratch copy of spec/.
+    Returns {"obligations": n, "wall_s": secs}; raises Broken unless every obligation is proved (a proof about the committed
+    specification that does not go through is a framework matter, never a verdict about the code)."""
+    _TLC_N[0] += 1
+    d = workdir("tlapm%d" % _TLC_N[0])
+    for f in os.listdir(SPEC):
+        if f.endswith(".tla"):
+            shutil.copyfile(os.path.join(SPEC, f), os.path.join(d, f))
+    # proof modules live in spec/proofs (they EXTEND TLAPS, which SANY's standard library lacks; tlapm brings its own)
+    shutil.copyfile(os.path.join(SPEC, "proofs", module + ".tla"), os.path.join(d, module + ".tla"))
+    t0 = time.time()
+    try:
+        r = subprocess.run(["tlapm", "--threads", str(min(NCPU, 8)), "--cleanfp", module + ".tla"], cwd=d, capture_output=True, text=True, timeout=timeout)
+    except subprocess.TimeoutExpired:
+        raise Broken("tlapm timed out on %s" % module)
+    out = r.stdout + r.stderr
+    m = re.search(r"All (\d+) obligations? proved", out)
+    if not m:
+        raise Broken("tlapm did not prove every obligation of %s:\n%s" % (module, out[-3000:]))
+    return {"obligations": int(m.group(1)), "wall_s": round(time.time() - t0, 1)}
+
+
 # --------------------------------------------------------------------------------------------
 # TLC
 
